@@ -112,6 +112,12 @@ def go_build_race(name):
     return dst
 
 
+class LibraryCrash(Exception):
+    def __init__(self, cmd, report):
+        Exception.__init__(self, cmd + "\n" + report)
+        self.cmd, self.report = cmd, report
+
+
 class BuildError(Exception):
     pass
 
@@ -385,6 +391,11 @@ def main_wrapper(prop, run):
     ctx.replay = args.replay
     try:
         run(ctx)
+    except LibraryCrash as e:
+        print(str(e)[-3000:], file=sys.stderr)
+        violation(ctx, "library-crash", {"kind": "the Go runtime ended the driver inside the library under test: an operation never returns "
+                                                 "(all goroutines asleep) or the library corrupted its own state",
+                                         "driver_cmd": e.cmd, "runtime_report": e.report}, True)
     except BuildError as e:
         # the tree does not build with the harness: the correspondence cannot be run
         print(str(e)[-3000:], file=sys.stderr)
@@ -402,6 +413,11 @@ def pipeline(cmd, timeout=3000):
     mism = [l for l in lines if l.startswith("MISMATCH")]
     done = [l for l in lines if l.startswith("DONE")]
     if rc != 0 or not done:
+        i = err.find("fatal error:")
+        if i >= 0 and REPO + "/" in err[i:]:
+            # the Go runtime ended the driver inside the library under test (deadlock: an operation
+            # never returns; concurrent map access): a failing execution, replayed by the command
+            raise LibraryCrash(cmd, err[i:][:3000])
         raise BuildError("pipeline failed rc=%d: %s\n%s\n%s" % (rc, cmd, out[-1500:], err[-1500:]))
     stats = {}
     for kv in done[-1].split()[1:]:
